@@ -12,7 +12,7 @@ pub struct C01;
 
 fn n_cases(tier: Tier) -> u64 {
     match tier {
-        Tier::Quick => 250_000,
+        Tier::Quick => 400_000,
         Tier::Thorough => 5_000_000,
     }
 }
@@ -73,7 +73,7 @@ pub fn generate(tape: &mut Tape, index: u64, tier: Tier) -> (&'static str, Sourc
             ("corpus-mutant", Sources::single(&join_tokens(&mutate_tokens(tape, toks))))
         }
         _ => {
-            let cfg = GenCfg { shadowing: true, invalid_cycles: true, max_decls: 14, ..GenCfg::full() };
+            let cfg = GenCfg { shadowing: true, invalid_cycles: true, loose_head_cycles: true, max_decls: 14, ..GenCfg::full() };
             let (p, _) = Gen::new(tape, cfg).program();
             ("shadow-cycles", to_sources(&render_plain(&p)))
         }
